@@ -5,7 +5,8 @@ from tools.harness import common, streams
 ID = 'C16'
 TARGETS = ['MindsVerif.Props.C16']
 THEOREMS = ['MindsVerif.Props.C16.' + n for n in (
-    'C16', 'C16_command', 'C16_partial', 'C16_partial_command', 'C16_layout', 'C16_closed_form', 'C16_columns', 'C16_render_blankSep',
+    'C16', 'C16_command', 'C16_link', 'C16_link_nonvacuous', 'phi_mindsdb', 'mw_parsed', 'mw_plus_kinds', 'sepStable_witness_plus',
+    'sepStable_others', 'C16_partial', 'C16_partial_command', 'C16_layout', 'C16_closed_form', 'C16_columns', 'C16_render_blankSep',
     'C16_layout_source', 'C16_blank_spec', 'C16_rawquery', 'C16_fixed', 'C16_live_cfg', 'phi16_mindsdb', 'pin_tokenFuncs',
     'pin_rewriting', 'pin_ignored',
     'C16_witness_1', 'C16_witness_2', 'C16_witness_3', 'C16_witness_4', 'C16_witness_5', 'C16_full_false')]
@@ -487,6 +488,51 @@ def synthetic(rng):
     return toks
 
 
+MW_GAPS = [' ', '  ', '\t', '\n', '_', '|', '', ' /*c*/ ', '/**/', ' -- c\n', '--\n', '\r\n', ' \n ', '__', 'x', '       ',
+           '\n      ', '\x0b', '\x0c', '/* a\nb */']
+MW_PREV = ['', ' ', 'a', '_', '(', '1', '\n', '.']
+MW_TAIL = ['', ' x', 'S', '_', '(', '1', ' ', '\n', ',']
+
+
+def multiword_corr(chk, R, rng, n):
+    """the multi-word keyword scanner model (MultiWord.mwMatch) against the real lexer: is the token that starts at the
+    first word the keyword token, and how long is it"""
+    sd = side()
+    lines, expect, metas = [], [], []
+    names = sd['multiword']
+    cases = []
+    for name in names:       # every gap once with neutral context, then random contexts
+        w1, w2 = re.findall(r'[A-Z]+', sd['multiword_re'][name].replace('\\b', ' ').replace('\\s', ' '))[:2]
+        for g in MW_GAPS:
+            cases.append((name, w1, w2, '', g, ' x'))
+        for _ in range(n):
+            cases.append((name, w1, w2, rng.choice(MW_PREV), rng.choice(MW_GAPS), rng.choice(MW_TAIL)))
+    for name, w1, w2, prev, g, tail in cases:
+        a = ''.join(c.lower() if rng.random() < 0.5 else c for c in w1)
+        b = ''.join(c.lower() if rng.random() < 0.5 else c for c in w2)
+        body = a + g + b + tail
+        text = prev + body
+        got = None
+        try:
+            for t in R.Lexer().tokenize(text):
+                if t.index == len(prev):
+                    got = (t.end - t.index) if t.type == name else None
+                    break
+                if t.index > len(prev):
+                    break
+        except Exception:
+            pass
+        lines.append('mw %s %s %s' % (name, ord(prev[-1]) if prev else '-', enc(body)))
+        expect.append('none' if got is None else 'some %d' % got)
+        metas.append(dict(keyword=name, text=text))
+        chk.count(('mw', name, text))
+    outs = common.lean_run('TokStr', lines)
+    bad = [(m, o, e) for m, o, e in zip(metas, outs, expect) if o != e]
+    chk.corr_result('multiword', len(lines), len(bad),
+                    dict(bad[0][0], model=bad[0][1], impl=bad[0][2]) if bad else None,
+                    dict(keywords=len(names), matched=sum(1 for e in expect if e != 'none')))
+
+
 def corpus_selects(R):
     out = []
     for text, types, lexs in streams.corpus_tokens('mindsdb'):
@@ -622,10 +668,15 @@ def run(chk):
         chk.oblige('model:theorem-instances', 'theorem-instance', thm_bad is None, thm_bad or '')
     except Exception as e:
         chk.oblige('corr:tokstr', 'correspondence', False, 'driver failed: %s' % e)
+    try:
+        multiword_corr(chk, R, rng, 40 if quick else 400)
+    except Exception as e:
+        chk.oblige('corr:multiword', 'correspondence', False, 'failed: %s' % e)
     for m, e in list(zip(metas, expects))[:3]:
         chk.samples.append(dict(command=m.get('command'), text=m.get('text', '')[:200], stored=e['stored']))
     live = side().get('rewriting', [])
     chk.samples.append(dict(live_lexer_rewriting_actions=live, applicable='C16_partial only (regression: some token action rewrites t.value again)' if live else 'C16 : C16_full Gen.C16Data.actCfg (full statement, live configuration)'))
+    chk.samples.append(dict(theorem='C16_link : parse Tables_mindsdb.tables mode bad ids fuel = .accept t log → Occ t pre (.node p lhs (l ++ q :: r)) post → lhs ≠ rq → q.root = rqc → tks.map tid = ids → ∃ tpre tl tmid tr tpost v, tks = tpre ++ tl :: (tmid ++ tr :: tpost) ∧ tid tl = LPAREN ∧ tid tr = RPAREN ∧ tmid.map tid = q.yield ∧ tmid ≠ [] ∧ closeIdx 0 ((tmid ++ tr :: tpost).map tid) = some tmid.length ∧ toRQ (size q) q (tmid ++ tr :: tpost) = some (v, tr :: tpost) ∧ v.value = tmid ∧ queryStr v = tokensToString tmid ∧ (LexInv actCfg tmid → queryStr v = verbatim tmid)'))
     chk.samples.append(dict(theorem='C16_partial : ∀ c toks, LexInv c toks → Unrewritten c toks → tokensToString toks = verbatim toks'))
     chk.samples.append(dict(theorem='C16_layout_source : ∀ c idx line s r, (∀ x ∈ r, x.dl ≠ 0 → x.gap ≠ []) → (∀ x ∈ s :: r, action c x.type x.src = x.src) → tokensToString (place c idx line (s :: r)) = storedSpec (s :: r)'))
     chk.samples.append(dict(theorem='C16_full_false : ¬ C16_full pinnedCfg;  C16_fixed : C16_full fixedCfg  (C16_full c := ∀ toks, LexInv c toks → tokensToString toks = verbatim toks)'))
